@@ -12,7 +12,33 @@ fn v(rule: &str, key: impl Into<String>, detail: impl Into<String>) -> Violation
     Violation { rule: rule.to_string(), key: key.into(), detail: detail.into() }
 }
 
+/// Status rules that need no scenario tag: a ModifyAckDeadline with a negative deadline must not
+/// be accepted (C05); a CreateSubscription across projects must not succeed (C10).
+fn rule_status(ctx: &Ctx, out: &mut Vec<Violation>) {
+    for c in ctx.m.calls.values() {
+        match (&c.req, c.code()) {
+            (Req::ModAck { ack_ids, secs, sub }, Some(OK)) if *secs < 0 && !ack_ids.is_empty() && !definitely_malformed_name(sub) => {
+                out.push(v("C05.reject", "negative_accepted", format!("ModifyAckDeadline with ack_deadline_seconds {} on {} was answered OK instead of INVALID_ARGUMENT", secs, sub)));
+            }
+            (Req::ModAck { ack_ids, sub, .. }, Some(OK)) if ack_ids.iter().any(|a| definitely_malformed_ack_id(a)) && !definitely_malformed_name(sub) => {
+                out.push(v("C05.reject", "malformed_id_accepted", format!("ModifyAckDeadline naming a malformed ack ID on {} was answered OK instead of INVALID_ARGUMENT", sub)));
+            }
+            (Req::CreateSub { sub, topic, .. }, Some(OK)) => {
+                let ps = sub.strip_prefix("projects/").and_then(|r| r.split('/').next());
+                let pt = topic.strip_prefix("projects/").and_then(|r| r.split('/').next());
+                if let (Some(a), Some(b)) = (ps, pt) {
+                    if a != b && sub.contains("/subscriptions/") && topic.contains("/topics/") {
+                        out.push(v("C10.project", "cross_project_created", format!("CreateSubscription of {} on topic {} (another project) succeeded instead of INVALID_ARGUMENT", sub, topic)));
+                    }
+                }
+            }
+            _ => {}
+        }
+    }
+}
+
 pub fn evaluate_more(ctx: &Ctx, out: &mut Vec<Violation>) {
+    rule_status(ctx, out);
     rule_c14(ctx, out);
     rule_c13(ctx, out);
     rule_c10(ctx, out);
@@ -144,7 +170,7 @@ fn rule_c14(ctx: &Ctx, out: &mut Vec<Violation>) {
                     (Some(id), true) => id,
                     _ => continue,
                 };
-                if !(create.ret_seq_or_max() < pc.inv_seq) || pc.ret_seq.unwrap() > fseq {
+                if !(inst.established_seq < pc.inv_seq) || pc.ret_seq.unwrap() > fseq {
                     continue;
                 }
                 // consumers other than the push loop may have taken it (pull on a push subscription)
@@ -669,7 +695,7 @@ fn rule_c16(ctx: &Ctx, out: &mut Vec<Violation>) {
                     if inst.topic != *topic || m.sub_delete_ever(name) || m.topic_deletes.contains_key(topic) || inst.deadline_us() > 600_000_000 {
                         continue;
                     }
-                    if m.calls[&inst.create_call].ret_seq_or_max() > c.inv_seq {
+                    if inst.established_seq > c.inv_seq {
                         continue;
                     }
                     let delivered: HashSet<&str> = m.deliveries.iter().filter(|d| d.sub == *name).map(|d| d.recv.token.as_str()).collect();
